@@ -19,7 +19,7 @@ ASSUMPTIONS = [
     "control statements inside with-blocks and op-free cycles are outside the generated domain",
     "nesting depth <= 4, <= ~40 statements per program",
 ]
-CASES = {"quick": 3200, "thorough": 80000}
+CASES = {"quick": 12800, "thorough": 240000}
 
 SHAPES = ["neg_if_lone_jump", "case_only_break", "lone_jump_block", "default_first", "grouped_case", "fallthrough",
           "no_final_terminator", "loop_last", "label_last", "call", "for", "while", "forever", "switch", "if"]
@@ -82,8 +82,17 @@ def check_program(prog, st, tag=""):
     return fails, comp, gs
 
 
+def case_program(case):
+    """A case is either a generated AST or {"source": text} (hand-written replay)."""
+    if "source" in case and "routines" not in case:
+        from vf import parse
+
+        return parse.strip_parse_only_keys(parse.parse_program(case["source"]))
+    return case
+
+
 def evaluate(case, st):
-    fails, _, _ = check_program(case, st)
+    fails, _, _ = check_program(case_program(case), st)
     return fails
 
 
